@@ -279,6 +279,7 @@ func runC16(c *Ctx) {
 	ruleRebuild(c, p, "C16.rebuild")
 	ruleNoAdopt(c, p, "C16.alias")
 	ruleAppendTail(c, p, "C16.tail")
+	ruleScratchAlias(c, p, "C16.scratch")
 	ruleAdopt(c, p, "C16.adopt")
 	ruleInferMaps(c, p, "C16.exact")
 	c.R.Assumptions = append(c.R.Assumptions,
@@ -1008,6 +1009,7 @@ func runC18(c *Ctx) {
 	ruleInferNoSharedState(c, p, "C18.shared-state")
 	ruleEchoedTypeValidated(c, p, "C18.echo")
 	ruleAutoRecordsType(c, p, "C18.auto-records")
+	ruleNoCommaSplit(c, p, "C18.comma-split")
 	ruleAdopt(c, p, "C18.adopt")
 	ruleInferTables(c, p, "C18")
 	c.R.Assumptions = append(c.R.Assumptions,
